@@ -19,6 +19,8 @@ struct Fixture {
     /// commit -> parents
     parents: HashMap<String, Vec<String>>,
     anchors: Vec<String>,
+    /// abbreviated ids that name more than one object
+    ambiguous: Vec<String>,
 }
 
 fn gitd(dir: &Path, secs: u64, args: &[&str]) -> String {
@@ -211,14 +213,14 @@ fn build_fixtures() -> Vec<Fixture> {
     let main = base.join("main");
     let ids = build_main(&main);
     let anchors = main_anchors(&ids);
-    out.push(Fixture { name: "main", dir: main.clone(), repo: open(&main), parents: parents_of(&main, &[&ids.commit_like_c3]), anchors: anchors.clone() });
+    out.push(Fixture { name: "main", dir: main.clone(), repo: open(&main), parents: parents_of(&main, &[&ids.commit_like_c3]), anchors: anchors.clone(), ambiguous: vec![ids.c2[..4].to_string(), ids.c3[..4].to_string()] });
 
     // the same repository with reachable objects in a pack and refs in packed-refs (unreachable objects stay loose)
     let packed = base.join("packed");
     scratch::copy_tree(&main, &packed).unwrap_or_else(|e| vkit::machinery!("copy fixture: {e}"));
     git::git(&packed, &["repack", "-a", "-d", "-q"]);
     git::git(&packed, &["pack-refs", "--all"]);
-    out.push(Fixture { name: "packed", dir: packed.clone(), repo: open(&packed), parents: parents_of(&packed, &[&ids.commit_like_c3]), anchors });
+    out.push(Fixture { name: "packed", dir: packed.clone(), repo: open(&packed), parents: parents_of(&packed, &[&ids.commit_like_c3]), anchors, ambiguous: vec![ids.c2[..4].to_string(), ids.c3[..4].to_string()] });
 
     // detached HEAD, no reflogs
     let det = base.join("detached");
@@ -237,13 +239,13 @@ fn build_fixtures() -> Vec<Fixture> {
         .map(|s| s.to_string())
         .chain([d1[..4].to_string(), d1.clone()])
         .collect();
-    out.push(Fixture { name: "detached", dir: det.clone(), repo: open(&det), parents: parents_of(&det, &[]), anchors: det_anchors });
+    out.push(Fixture { name: "detached", dir: det.clone(), repo: open(&det), parents: parents_of(&det, &[]), anchors: det_anchors, ambiguous: Vec::new() });
 
     // unborn HEAD
     let empty = base.join("empty");
     git::init(&empty);
     let empty_anchors: Vec<String> = ["HEAD", "@", "main", "@{0}", "@{-1}", "@{u}", ":a", ":/x", "", "0000"].iter().map(|s| s.to_string()).collect();
-    out.push(Fixture { name: "empty", dir: empty.clone(), repo: open(&empty), parents: HashMap::new(), anchors: empty_anchors });
+    out.push(Fixture { name: "empty", dir: empty.clone(), repo: open(&empty), parents: HashMap::new(), anchors: empty_anchors, ambiguous: Vec::new() });
     out
 }
 
@@ -254,7 +256,59 @@ enum Outcome {
     Error(String),
 }
 
+static BATCH: std::sync::OnceLock<HashMap<(u8, String), Outcome>> = std::sync::OnceLock::new();
+static GIT_CALLS: std::sync::atomic::AtomicU64 = std::sync::atomic::AtomicU64::new(0);
+
+/// Specs for which `git rev-parse` prints exactly one object id or fails, i.e. those that go through git's `get_oid()` unchanged:
+/// no leading `^`, no range, none of the rev-parse level shorthands `^!`, `^@`, `^-`.
+fn names_single_object(spec: &str) -> bool {
+    !(spec.is_empty() || spec.starts_with('^') || spec.contains("..") || spec.contains("^!") || spec.contains("^@") || spec.contains("^-") || spec.contains('\n'))
+}
+
+/// Resolve many single-object specs with one `git cat-file --batch-check` process (same `get_oid_with_context()` as rev-parse).
+fn batch_oracle(dir: &Path, specs: &[&str], repo: u8, out: &mut HashMap<(u8, String), Outcome>) {
+    let mut rest: &[&str] = specs;
+    // some specs make cat-file die (`fatal: log for 'HEAD' only has 2 entries`): that is the answer for the spec it died on,
+    // and the batch is restarted behind it
+    while !rest.is_empty() {
+        let mut input = Vec::new();
+        for s in rest {
+            input.extend_from_slice(s.as_bytes());
+            input.push(b'\n');
+        }
+        let o = git::try_git_in(dir, &["cat-file", "--batch-check"], &input);
+        GIT_CALLS.fetch_add(1, std::sync::atomic::Ordering::Relaxed);
+        let text = String::from_utf8_lossy(&o.stdout).into_owned();
+        let lines: Vec<&str> = text.lines().collect();
+        if lines.len() > rest.len() || (o.ok && lines.len() != rest.len()) {
+            return; // not the shape we understand: leave the remaining specs to rev-parse
+        }
+        for (spec, line) in rest.iter().zip(&lines) {
+            let f: Vec<&str> = line.split(' ').collect();
+            let outcome = if f.len() == 3 && f[0].len() == 40 && f[0].bytes().all(|b| b.is_ascii_hexdigit()) && ["commit", "tree", "blob", "tag"].contains(&f[1]) {
+                Outcome::Revs(vec![f[0].to_string()])
+            } else if line.ends_with(" missing") || line.ends_with(" ambiguous") {
+                Outcome::Error(line.to_string())
+            } else {
+                continue; // unknown shape: leave it to rev-parse
+            };
+            out.insert((repo, spec.to_string()), outcome);
+        }
+        if lines.len() == rest.len() {
+            return;
+        }
+        let err = o.err_text();
+        let fatal = err.lines().find(|l| l.starts_with("fatal:")).unwrap_or("");
+        if o.ok || fatal.is_empty() {
+            return;
+        }
+        out.insert((repo, rest[lines.len()].to_string()), Outcome::Error(fatal.to_string()));
+        rest = &rest[lines.len() + 1..];
+    }
+}
+
 fn git_outcome(dir: &Path, spec: &str) -> Outcome {
+    GIT_CALLS.fetch_add(1, std::sync::atomic::Ordering::Relaxed);
     let o = git::try_git(dir, &["rev-parse", "--end-of-options", spec, "--"]);
     let text = o.text();
     let mut lines: Vec<String> = text.lines().map(str::to_string).collect();
@@ -298,12 +352,20 @@ fn gix_outcome(fx: &Fixture, spec: &str) -> (Outcome, &'static str) {
             (Outcome::Error(text.replace('\n', " ")), "error")
         }
         Ok(spec) => {
-            let ps = |id: &gix::hash::ObjectId| fx.parents.get(&id.to_string()).cloned();
+            let ps = |id: &gix::hash::ObjectId| {
+                fx.parents.get(&id.to_string()).cloned().or_else(|| {
+                    // an annotated tag: git applies `^@` / `^!` to the commit it points to
+                    let repo = fx.repo.to_thread_local();
+                    let commit = repo.find_object(*id).ok()?.peel_tags_to_end().ok()?;
+                    fx.parents.get(&commit.id.to_string()).cloned()
+                })
+            };
             match spec {
                 Spec::Include(a) => (Outcome::Revs(vec![a.to_string()]), "single"),
                 Spec::Exclude(a) => (Outcome::Revs(vec![format!("^{a}")]), "exclude"),
                 Spec::Range { from, to } => (Outcome::Revs(vec![to.to_string(), format!("^{from}")]), "range"),
-                Spec::Merge { theirs, ours } => (Outcome::Revs(vec![theirs.to_string(), ours.to_string()]), "merge"),
+                // `git rev-parse a...b` prints b, then a, then the excluded merge bases
+                Spec::Merge { theirs, ours } => (Outcome::Revs(vec![ours.to_string(), theirs.to_string()]), "merge"),
                 Spec::IncludeOnlyParents(a) => match ps(&a) {
                     Some(p) => (Outcome::Revs(p), "parents-only"),
                     None => (Outcome::Error(format!("^@ applied to {a} which is not a known commit")), "parents-only"),
@@ -320,7 +382,7 @@ fn gix_outcome(fx: &Fixture, spec: &str) -> (Outcome, &'static str) {
 fn evaluate(fixtures: &[Fixture], c: &Case) -> Verdict {
     let v = vkit::catch(|| evaluate_inner(fixtures, c)).unwrap_or_else(|p| {
         // `Error::from_errors()` asserts that the delegate recorded an error; navigation without an anchor records none
-        let class = if p.contains("!errors.is_empty()") { "panic-no-error-recorded" } else { "panic" };
+        let class = if p.contains("!errors.is_empty()") { "panic/no-error-recorded" } else { "panic" };
         bad(class, format!("repo {} spec {:?}: {p}", c.repo, c.spec))
     });
     if let (Err(m), Ok(path)) = (&v, std::env::var("VERIF_C48_DUMP")) {
@@ -366,12 +428,47 @@ fn feature(spec: &str) -> &'static str {
 
 fn evaluate_inner(fixtures: &[Fixture], c: &Case) -> Verdict {
     let Some(fx) = fixtures.get(c.repo as usize) else { vkit::machinery!("no fixture {}", c.repo) };
-    let want = git_outcome(&fx.dir, &c.spec);
+    let want = match BATCH.get().and_then(|m| m.get(&(c.repo, c.spec.clone()))) {
+        Some(o) => o.clone(),
+        None => git_outcome(&fx.dir, &c.spec),
+    };
     let (got, shape) = gix_outcome(fx, &c.spec);
+    let class_of = |kind: &str, gix_err: &str| -> String {
+        match diagnose(&c.spec, fx.name, kind, gix_err) {
+            Some(root_cause) => root_cause.to_string(),
+            None => format!("{kind}/{}", feature(&c.spec)),
+        }
+    };
     match (&want, &got) {
         (Outcome::Error(_), Outcome::Error(_)) => ok_trivial("both-reject"),
-        (Outcome::Error(g), Outcome::Revs(r)) => bad(&format!("gix-resolves-what-git-rejects/{}", feature(&c.spec)), format!("repo {} spec {:?}: git: {g}; gix: {r:?}", fx.name, c.spec)),
-        (Outcome::Revs(r), Outcome::Error(e)) => bad(&format!("gix-rejects-what-git-resolves/{}", feature(&c.spec)), format!("repo {} spec {:?}: git: {r:?}; gix: {e}", fx.name, c.spec)),
+        (Outcome::Error(g), Outcome::Revs(r)) => {
+            let names_ambiguous_prefix = fx.ambiguous.iter().any(|p| {
+                let not_hex_after = |rest: &str| rest.bytes().next().map_or(true, |b| !b.is_ascii_hexdigit());
+                c.spec.strip_prefix(p.as_str()).map_or(false, not_hex_after)
+                    || c.spec.find(&format!("-g{p}")).map_or(false, |at| not_hex_after(&c.spec[at + 2 + p.len()..]))
+            });
+            if g.contains("is ambiguous") || g.ends_with(" ambiguous") || names_ambiguous_prefix {
+                // deliberate: gitoxide disambiguates short ids through the following navigation/peel where git gives up
+                // (gix tests `parse_spec_better_than_baseline`, "git can't do that for some reason")
+                return ok_trivial("git-ambiguous/gix-disambiguates-by-transformation");
+            }
+            if c.spec == ".." {
+                // deliberate: gix test freestanding_double_or_triple_dot_defaults_to_head_refs ("git can't communicate what it does here")
+                return ok_trivial("lone-dotdot-is-HEAD..HEAD-in-gix (deliberate)");
+            }
+            if c.spec.contains("...") && g.contains("not a commit") {
+                // git fails while computing merge bases, which is not part of resolving the spec
+                return ok_trivial("git-needs-commits-for-merge-base");
+            }
+            bad(&class_of("gix-resolves-what-git-rejects", ""), format!("repo {} spec {:?}: git: {g}; gix: {r:?}", fx.name, c.spec))
+        }
+        (Outcome::Revs(r), Outcome::Error(e)) => {
+            if reflog_group_followed_by_brace_group(&c.spec) {
+                // git answers every such spec whose regular interpretation fails by parsing "n}^{..." as a date (`@{<date>}`)
+                return ok_trivial("git-date-parser-fallback");
+            }
+            bad(&class_of("gix-rejects-what-git-resolves", e), format!("repo {} spec {:?}: git: {r:?}; gix: {e}", fx.name, c.spec))
+        }
         (Outcome::Revs(w), Outcome::Revs(g)) => {
             let same = if shape == "merge" {
                 // git additionally prints the merge bases as exclusions; only the two tips come from the spec itself
@@ -382,15 +479,76 @@ fn evaluate_inner(fixtures: &[Fixture], c: &Case) -> Verdict {
             if same {
                 ok(format!("same/{shape}"))
             } else {
-                bad(&format!("differs/{}", feature(&c.spec)), format!("repo {} spec {:?}: git: {w:?}; gix ({shape}): {g:?}", fx.name, c.spec))
+                bad(&class_of("differs", ""), format!("repo {} spec {:?}: git: {w:?}; gix ({shape}): {g:?}", fx.name, c.spec))
             }
         }
     }
 }
 
+/// `...@{n}...^{...}`: a reflog (or similar) group that is later followed by a `^{` group.
+fn reflog_group_followed_by_brace_group(spec: &str) -> bool {
+    spec.find("@{").map_or(false, |p| spec[p..].find('}').map_or(false, |q| spec[p + q..].contains("^{")))
+}
+
+/// Known root causes of disagreements, named so that each known finding matches exactly one of them.
+fn diagnose(spec: &str, repo: &str, kind: &str, gix_err: &str) -> Option<&'static str> {
+    let groups = spec.matches("@{").count();
+    if spec.starts_with("@@") {
+        return Some("at-sign-before-at-brace");
+    }
+    if spec.contains("~0") {
+        return Some("tilde-zero-is-noop");
+    }
+    if spec.contains("^{/}") {
+        return Some("empty-regex-is-noop");
+    }
+    if groups >= 2 && kind == "gix-rejects-what-git-resolves" && gix_err.contains("could not be parsed: \"@{") {
+        return Some("chained-at-brace-groups");
+    }
+    if spec.contains("^-") && kind == "gix-rejects-what-git-resolves" && gix_err.contains("could not be parsed: \"-") {
+        return Some("parent-range-shorthand-needs-plain-name");
+    }
+    if spec.contains("^-") && kind == "differs" && groups >= 1 {
+        return Some("parent-range-shorthand-ignores-at-brace-group");
+    }
+    if spec.starts_with(":/") && (spec.contains("^!") || spec.contains("^@") || spec.contains("^-")) {
+        return Some("top-level-regex-swallows-parent-shorthand");
+    }
+    if spec.starts_with("dup@{") {
+        return Some("reflog-of-name-shared-by-tag-and-branch");
+    }
+    if spec.starts_with("HEAD@{u") || spec.starts_with("HEAD@{push") {
+        return Some("upstream-of-symbolic-HEAD");
+    }
+    if (spec.starts_with("heads/") || spec.starts_with("refs/")) && (spec.contains("@{u") || spec.contains("@{push")) && kind == "gix-resolves-what-git-rejects" {
+        return Some("upstream-of-non-branch-spelling");
+    }
+    if spec.starts_with("^^{/") || spec.starts_with("^{/") {
+        return Some("regex-peel-without-anchor");
+    }
+    if repo == "detached" && spec.contains("@{0}") {
+        return Some("reflog-entry-zero-without-reflog");
+    }
+    if spec.contains("..") && (spec.contains("^!") || spec.contains("^@")) && kind == "gix-resolves-what-git-rejects" {
+        return Some("range-followed-by-parent-shorthand");
+    }
+    if groups == 1 && kind == "gix-rejects-what-git-resolves" && gix_err.contains("Reflog entries require a ref name") {
+        return Some("reflog-of-hex-named-ref");
+    }
+    let describe_like = spec.find("-g").map_or(false, |p| spec[p + 2..].bytes().take_while(u8::is_ascii_hexdigit).count() >= 4);
+    if describe_like && kind == "gix-rejects-what-git-resolves" && gix_err.contains("is ambiguous") {
+        return Some("describe-prefix-not-disambiguated-as-commit");
+    }
+    None
+}
+
 fn compose(anchors: &[String], suffixes: &[&str], depth: usize, finals: &[&str], emit: &mut dyn FnMut(String)) {
     for a in anchors {
         vkit::enumerate::seqs(suffixes, 0, depth, |ss| {
+            // `:/regex` takes the rest of the spec as regular expression; `@{...}` is only meaningful directly after a name
+            if (a.starts_with(":/") && !ss.is_empty()) || ss.iter().skip(1).any(|x| x.starts_with("@{")) {
+                return;
+            }
             let mut s = a.clone();
             for x in ss {
                 s.push_str(x);
@@ -425,9 +583,12 @@ pub fn run(run: &'static Run) {
         run.pick("", "; main and packed d<=2 over all suffixes"),
         run.pick("", ", packed"),
     ));
-    run.assume("oracle: git 2.39.5 `rev-parse --end-of-options <spec> --` in the fixture's worktree; outcome = printed revisions (with ^ markers) or failure; error texts are not compared");
+    run.assume("oracle: git 2.39.5; specs that name one object (no leading ^, no range, no ^! ^@ ^-) are resolved by one `git cat-file --batch-check` per fixture (same get_oid_with_context() as rev-parse; cross-checked against rev-parse for all specs with <= 1 suffix in the thorough tier), all other specs by `git rev-parse --end-of-options <spec> --`; outcome = printed revisions (with ^ markers) or failure; error texts are not compared");
     run.assume("excluded because gitoxide documents it as not implemented (Error::Planned): reflog lookup by date `@{<date>}`");
     run.assume("excluded: describe output with a '-dirty' suffix ('<hex>-dirty'), which gitoxide accepts on purpose (gix-revision tests partial_format_with_dirty_suffix_is_recognized) and git rejects");
+    run.assume("not compared (deliberate, tested gitoxide behaviour): short ids that git reports as ambiguous but gitoxide disambiguates through the navigation/peel that follows (gix tests parse_spec_better_than_baseline)");
+    run.assume("not compared (deliberate, tested): a lone `..` is HEAD..HEAD in gitoxide (test freestanding_double_or_triple_dot_defaults_to_head_refs), git treats it as the parent directory path");
+    run.assume("not compared: `a...b` where git fails with 'not a commit' while computing merge bases; specs with a `^{...}` group after an `@{...}` group that gitoxide rejects (git resolves every such failing spec through its approxidate fallback, i.e. the excluded @{<date>} feature)");
     run.assume("regular expressions are restricted to constructs that mean the same in POSIX basic (git) and Rust regex syntax: literals, '.', '^', ' '");
     run.assume("`A...B`: only the two tips are compared (git additionally prints the merge bases, which the spec itself does not name)");
     run.assume("fixtures: main = 6 commits incl. a merge, lightweight/annotated/nested/tree/blob tags, branch+tag of the same name, hex-looking branch names, remote tracking + upstream config, reflogs with checkouts, a blob and a commit crafted to share 4-hex prefixes with commits; packed = same with pack + packed-refs; detached = detached HEAD without reflogs; empty = unborn HEAD");
@@ -435,61 +596,107 @@ pub fn run(run: &'static Run) {
 
     let all: Vec<&str> = SUFFIX_CORE.iter().chain(SUFFIX_MORE).copied().collect();
     let all = &all;
-    run.sub_with(
-        "single",
-        vkit::Opts::default().chunk(2048),
-        |emit| {
-            let mut seen = std::collections::HashSet::new();
-            let mut out = |repo: u8, spec: String| {
-                if seen.insert((repo, spec.clone())) {
-                    emit(Case { repo, spec });
-                }
-            };
-            // simplest first: depth 0/1 everywhere, then the deep compositions
-            for (i, fx) in fixtures.iter().enumerate() {
-                compose(&fx.anchors, all, 1, SUFFIX_FINAL, &mut |s| out(i as u8, s));
-            }
-            if std::env::var("VERIF_C48_SHALLOW").is_ok() {
-                return;
-            }
-            compose(&fixtures[0].anchors, SUFFIX_DEEP, run.pick(2, 3), SUFFIX_FINAL, &mut |s| out(0, s));
-            if thorough {
-                compose(&fixtures[0].anchors, all, 2, SUFFIX_FINAL, &mut |s| out(0, s));
-                compose(&fixtures[1].anchors, all, 2, SUFFIX_FINAL, &mut |s| out(1, s));
-            }
-        },
-        |c: &Case| evaluate(fixtures, c),
-    );
+    let few_finals: &[&str] = &["^!", "^@", "^-", "^-2"];
 
-    run.sub_with(
-        "range",
-        vkit::Opts::default().chunk(2048),
-        |emit| {
-            let m = &fixtures[0];
-            let c2_4 = m.anchors.iter().find(|a| a.len() == 4 && a.bytes().all(|b| b.is_ascii_hexdigit()) && *a != "0000" && *a != "abcd").cloned().unwrap_or_default();
-            let revs: Vec<String> =
-                ["HEAD", "@", "main", "side", "v1", "vv", "ttree", "tblob", "HEAD~2", "side^", "main^2", "@{-1}", "nonexistent", ""].iter().map(|s| s.to_string()).chain([c2_4]).collect();
-            for repo in [0u8, 1, 2, 3] {
-                if repo == 1 && !thorough {
-                    continue;
-                }
-                for a in &revs {
-                    emit(Case { repo, spec: format!("^{a}") });
-                    for b in &revs {
-                        for op in ["..", "..."] {
-                            emit(Case { repo, spec: format!("{a}{op}{b}") });
-                        }
+    // ---- generate every case up front (the batch oracle needs the complete list)
+    let mut single: Vec<Case> = Vec::new();
+    {
+        let mut seen = std::collections::HashSet::new();
+        let mut out = |repo: u8, spec: String| {
+            if seen.insert((repo, spec.clone())) {
+                single.push(Case { repo, spec });
+            }
+        };
+        // simplest first: depth 0/1 everywhere, then the deep compositions
+        for (i, fx) in fixtures.iter().enumerate() {
+            // every final form costs one git process: quick tries them on main and detached only
+            let finals = if thorough || i == 0 || i == 2 { SUFFIX_FINAL } else { &[] };
+            compose(&fx.anchors, all, 1, finals, &mut |s| out(i as u8, s));
+        }
+        if std::env::var("VERIF_C48_SHALLOW").is_err() {
+            // anchors on which git aborts (`fatal: log for 'refs/heads/main' only has 3 entries`) are composed to depth 1 only:
+            // every longer spec fails the same way, and each costs the batch oracle a process restart
+            let alive = |fx: &Fixture| -> Vec<String> {
+                fx.anchors
+                    .iter()
+                    .filter(|a| !names_single_object(a) || !git::try_git_in(&fx.dir, &["cat-file", "--batch-check"], format!("{a}\n").as_bytes()).err_text().contains("fatal:"))
+                    .cloned()
+                    .collect()
+            };
+            let main_alive = alive(&fixtures[0]);
+            if thorough {
+                let packed_alive = alive(&fixtures[1]);
+                compose(&main_alive, SUFFIX_DEEP, 3, &[], &mut |s| out(0, s));
+                compose(&main_alive, SUFFIX_DEEP, 2, SUFFIX_FINAL, &mut |s| out(0, s));
+                compose(&main_alive, all, 2, few_finals, &mut |s| out(0, s));
+                compose(&packed_alive, all, 2, few_finals, &mut |s| out(1, s));
+            } else {
+                compose(&main_alive, SUFFIX_DEEP, 2, &[], &mut |s| out(0, s));
+            }
+        }
+    }
+    let mut range: Vec<Case> = Vec::new();
+    {
+        let m = &fixtures[0];
+        let c2_4 = m.anchors.iter().find(|a| a.len() == 4 && a.bytes().all(|b| b.is_ascii_hexdigit()) && *a != "0000" && *a != "abcd").cloned().unwrap_or_default();
+        let revs: Vec<String> =
+            ["HEAD", "@", "main", "side", "v1", "vv", "ttree", "tblob", "HEAD~2", "side^", "main^2", "@{-1}", "nonexistent", ""].iter().map(|s| s.to_string()).chain([c2_4]).collect();
+        for repo in [0u8, 1, 2, 3] {
+            if repo == 1 && !thorough {
+                continue;
+            }
+            // quick: the full pair matrix on main only, a 5x5 matrix elsewhere
+            let revs: Vec<String> = if repo == 0 || thorough { revs.clone() } else { revs.iter().filter(|r| ["HEAD", "@", "main", "nonexistent", ""].contains(&r.as_str())).cloned().collect() };
+            for a in &revs {
+                range.push(Case { repo, spec: format!("^{a}") });
+                for b in &revs {
+                    for op in ["..", "..."] {
+                        range.push(Case { repo, spec: format!("{a}{op}{b}") });
                     }
                 }
-                for s in ["..", "...", "....", "HEAD..main..side", "^HEAD..main", "^^HEAD", "HEAD^!..main", "HEAD..main^!", "HEAD^@..main", "main..side^-"] {
-                    emit(Case { repo, spec: s.to_string() });
-                }
             }
-        },
-        |c: &Case| evaluate(fixtures, c),
-    );
+            for s in ["..", "...", "....", "HEAD..main..side", "^HEAD..main", "^^HEAD", "HEAD^!..main", "HEAD..main^!", "HEAD^@..main", "main..side^-"] {
+                range.push(Case { repo, spec: s.to_string() });
+            }
+        }
+    }
 
-    run.cov("oracle_calls_git", run.sub_evaluations("single") + run.sub_evaluations("range"));
+    // ---- batch oracle for specs that name a single object: one `git cat-file --batch-check` per repository
+    if !run.is_replay() {
+        let mut map = HashMap::new();
+        for (i, fx) in fixtures.iter().enumerate() {
+            let specs: Vec<&str> = single.iter().filter(|c| c.repo as usize == i && names_single_object(&c.spec)).map(|c| c.spec.as_str()).collect();
+            batch_oracle(&fx.dir, &specs, i as u8, &mut map);
+        }
+        run.cov("oracle_answers_from_cat_file_batch", map.len());
+        let _ = BATCH.set(map);
+    }
+
+    run.sub_with("single", vkit::Opts::default().chunk(4096), |emit| single.into_iter().for_each(emit), |c: &Case| evaluate(fixtures, c));
+    run.sub_with("range", vkit::Opts::default().chunk(2048), |emit| range.into_iter().for_each(emit), |c: &Case| evaluate(fixtures, c));
+
+    // ---- the batch oracle itself is cross-checked against `git rev-parse` (thorough): all specs with <= 1 suffix on main
+    if thorough && !run.is_replay() {
+        let mut specs = Vec::new();
+        compose(&fixtures[0].anchors, all, 1, &[], &mut |s| specs.push(s));
+        run.sub_with(
+            "oracle-cross-check",
+            vkit::Opts::default().chunk(1024),
+            |emit| specs.into_iter().filter(|s| names_single_object(s)).for_each(|spec| emit(Case { repo: 0, spec })),
+            |c: &Case| {
+                let fx = &fixtures[c.repo as usize];
+                let a = git_outcome(&fx.dir, &c.spec);
+                let b = BATCH.get().and_then(|m| m.get(&(c.repo, c.spec.clone())).cloned());
+                match (a, b) {
+                    (Outcome::Revs(x), Some(Outcome::Revs(y))) if x == y => ok_trivial("oracles-agree/revs"),
+                    (Outcome::Error(_), Some(Outcome::Error(_))) => ok_trivial("oracles-agree/error"),
+                    (a, b) => vkit::machinery!("cat-file --batch-check and rev-parse disagree on {:?}: {a:?} vs {b:?}", c.spec),
+                }
+            },
+        );
+    }
+
+    run.cov("oracle_calls_git", GIT_CALLS.load(std::sync::atomic::Ordering::Relaxed));
     for class in ["same/single", "same/range", "same/merge", "same/exclude", "same/parents-only", "same/exclude-parents", "both-reject"] {
         require_unless_capped(run, &format!("outcome {class} was observed"), run.outcome_count(class) > 0);
     }
